@@ -112,7 +112,7 @@ theorem colorNameToRgb_hex6 (sp : Char → Bool) (hsp : SpOk sp) (c : Text) (h :
     have hb1 : ([a, b, c, d, e, f] : Text)[1]? = some b := rfl
     rw [hb1]
     simp only [b1', b2', Bool.or_self, Bool.and_false, Bool.false_eq_true, if_false,
-      hexDigits_six a b c d e f ha hb hc hd he hf, Option.map_some, hexRgb]
+      hexDigits_six a b c d e f ha hb hc hd he hf, hexRgb]
     have := hv_lt a; have := hv_lt b; have := hv_lt c; have := hv_lt d; have := hv_lt e; have := hv_lt f
     simp
     refine ⟨?_, ?_, ?_⟩ <;> omega
